@@ -254,14 +254,93 @@ def neg (a : OVal V) : M V (OVal V) :=
   | some x => pure (.int (-x))
   | Option.none => throw (.unmodelled "unary - operand")
 
+/-- a `datetime.timedelta` is the instance with its three normalised attributes (`0 ≤ seconds < 86400`,
+`0 ≤ microseconds < 10^6`, `days` of any sign) -/
+def mkDelta (us : Int) : OVal V :=
+  .obj "timedelta" [("days", .int (us / 86400000000)), ("seconds", .int (us % 86400000000 / 1000000)),
+    ("microseconds", .int (us % 1000000))]
+
+/-- total microseconds of a timedelta instance -/
+def deltaUs? : OVal V → Option Int
+  | .obj "timedelta" [("days", .int d), ("seconds", .int s), ("microseconds", .int m)] =>
+    some ((d * 86400 + s) * 1000000 + m)
+  | _ => Option.none
+
+/-- `timedelta(n)`: n days -/
+def timedeltaDays (n : OVal V) : M V (OVal V) :=
+  match intOf? n with
+  | some d => pure (mkDelta (d * 86400000000))
+  | Option.none => throw (.unmodelled "timedelta argument")
+
 def lt (a b : OVal V) : M V Bool :=
   match intOf? a, intOf? b with
   | some x, some y => pure (decide (x < y))
-  | _, _ => match a, b with
+  | _, _ => match deltaUs? a, deltaUs? b with
+   | some x, some y => pure (decide (x < y))
+   | _, _ => match a, b with
     | .val _, _ => throw (.unmodelled "ordering of an abstract value")
     | _, .val _ => throw (.unmodelled "ordering of an abstract value")
     | .str _, .str _ => throw (.unmodelled "string ordering")
     | _, _ => throw .typeError
+
+/-- `a * b`: ints; a timedelta times an int -/
+def mul (a b : OVal V) : M V (OVal V) :=
+  match intOf? a, intOf? b with
+  | some x, some y => pure (.int (x * y))
+  | _, _ => match deltaUs? a, intOf? b with
+    | some us, some k => pure (mkDelta (us * k))
+    | _, _ => throw (.unmodelled "* operands")
+
+/-- `a // b`, `a % b` on ints (floor semantics) -/
+def floordiv (a b : OVal V) : M V (OVal V) :=
+  match intOf? a, intOf? b with
+  | some x, some y => if y = 0 then throw (.unmodelled "ZeroDivisionError") else pure (.int (x.fdiv y))
+  | _, _ => throw (.unmodelled "// operands")
+
+def mod (a b : OVal V) : M V (OVal V) :=
+  match intOf? a, intOf? b with
+  | some x, some y => if y = 0 then throw (.unmodelled "ZeroDivisionError") else pure (.int (x.fmod y))
+  | _, _ => throw (.unmodelled "% operands")
+
+/-! ### `str.format` on the fragment used: `{}` (a str, or an int in decimal) and `{:0Wd}` (zero-padded int, one-digit width) -/
+
+def natDigits (n : Nat) : List Char := Nat.toDigits 10 n
+
+def intRepr (i : Int) : List Char := if i < 0 then '-' :: natDigits i.natAbs else natDigits i.toNat
+
+def padDigits (w n : Nat) : List Char := List.replicate (w - (natDigits n).length) '0' ++ natDigits n
+
+/-- `{:0Wd}`: the width counts the sign -/
+def padInt (w : Nat) (i : Int) : List Char :=
+  if i < 0 then '-' :: padDigits (w - 1) i.natAbs else padDigits w i.toNat
+
+def fmtField (spec : List Char) (x : OVal V) : M V (List Char) :=
+  match spec, x with
+  | [], .str s => pure s.toList
+  | [], .int i => pure (intRepr i)
+  | [':', '0', w, 'd'], .int i => pure (padInt (w.toNat - '0'.toNat) i)
+  | _, _ => throw (.unmodelled "format field")
+
+/-- the scanner: outside a field (`none`) or inside one with the spec read so far, reversed -/
+def fmtGo : Option (List Char) → List Char → List (OVal V) → M V (List Char)
+  | Option.none, [], _ => pure []
+  | some _, [], _ => throw .valueError
+  | Option.none, c :: r, args =>
+    if c = '{' then fmtGo (some []) r args
+    else if c = '}' then throw (.unmodelled "brace escape")
+    else do pure (c :: (← fmtGo Option.none r args))
+  | some sp, c :: r, args =>
+    if c = '}' then
+      match args with
+      | [] => throw .indexError
+      | a :: as => do pure ((← fmtField sp.reverse a) ++ (← fmtGo Option.none r as))
+    else fmtGo (some (c :: sp)) r args
+
+/-- `fmt.format(*args)` -/
+def strFormat (fmt : OVal V) (args : List (OVal V)) : M V (OVal V) :=
+  match fmt with
+  | .str s => do pure (.str (String.ofList (← fmtGo Option.none s.toList args)))
+  | _ => throw (.unmodelled ".format on a non-str")
 
 def le (a b : OVal V) : M V Bool :=
   match intOf? a, intOf? b with
